@@ -1,9 +1,68 @@
+(** C14 — layouts are geometrically coherent and orientation-symmetric.
+    Statements only; every proof is [exact <lemma of Proofs/LayoutProofs.v>].
+
+    [layout o P S r sizes] (Model/Layout.v) is [layout.compute] for orientation [o],
+    drawing parameters [P], species tree [S], reconciliation [r] and the measured node
+    sizes [sizes] (in measuring order), over exact rationals; its result is a tree of
+    [sublayout]s shaped like [S] ([LNode s l r]: an internal species, its first and second
+    child), [flatten] lists it in pre-order.  [tp]/[tr]/[t_ltree] exchange x and y
+    (and width and height).  [rinside c p]: rectangle [c] lies inside [p];
+    [rdisjoint a b]: [a] and [b] have no common interior point; [roverlap]: they have. *)
 From Coq Require Import List Bool Arith QArith.
 From SR Require Import Base.PathB Model.Recon Model.Branches Model.Layout Proofs.LayoutProofs.
 Import ListNotations.
+Local Open Scope Q_scope.
 
-Theorem C14_smoke :
-  layout Vertical {| pad := 4; gsp := 5; ovh := 10; mss := 12; lsp := 4 |}
-         (SNode SLeaf SLeaf) (RNode [] (RLeaf [false]) (RLeaf [true])) [(1, 1); (1, 1); (1, 1)] <> None.
-Proof. exact layout_smoke. Qed.
-Print Assumptions C14_smoke.
+(* The horizontal layout is the mirror image (x and y exchanged) of the vertical layout
+   computed with width and height of every node exchanged — structural equality of the
+   whole result, for every input (also where an exception is raised: [None] on both sides). *)
+Theorem C14_mirror : forall P S r sizes,
+  layout Horizontal P S r sizes = option_map t_ltree (layout Vertical P S r (map tp sizes)).
+Proof. exact mirror. Qed.
+Print Assumptions C14_mirror.
+
+(* For non-negative drawing parameters and node sizes, in both orientations: the boxes of
+   the two child species of every internal species lie inside their parent's box ... *)
+Theorem C14_child_in_parent : forall o P S r sizes t,
+  nonneg_params P -> Forall size_ok sizes -> layout o P S r sizes = Some t ->
+  forall s l r', In (LNode s l r') (lsubtrees t) ->
+  rinside (l_rect (linfo l)) (l_rect s) /\ rinside (l_rect (linfo r')) (l_rect s).
+Proof. exact child_in_parent. Qed.
+Print Assumptions C14_child_in_parent.
+
+(* ... and never overlap. *)
+Theorem C14_siblings_disjoint : forall o P S r sizes t,
+  nonneg_params P -> Forall size_ok sizes -> layout o P S r sizes = Some t ->
+  forall s l r', In (LNode s l r') (lsubtrees t) -> rdisjoint (l_rect (linfo l)) (l_rect (linfo r')).
+Proof. exact siblings_disjoint. Qed.
+Print Assumptions C14_siblings_disjoint.
+
+(* No two species trunks overlap PROVIDED every trunk lies inside its own species box
+   (all pairs of the pre-order list). *)
+Theorem C14_trunks_disjoint_partial : forall o P S r sizes t,
+  nonneg_params P -> Forall size_ok sizes -> layout o P S r sizes = Some t ->
+  (forall s, In s (flatten t) -> rinside (l_trunk s) (l_rect s)) ->
+  ForallOrdPairs (fun a b => rdisjoint (l_trunk a) (l_trunk b)) (flatten t).
+Proof. exact trunks_disjoint_partial. Qed.
+Print Assumptions C14_trunks_disjoint_partial.
+
+(* The proviso cannot be dropped (known finding F-TRUNK-OVERLAP, DESIGN section 9): with the
+   default parameters and positive sizes in {1, 100}, the trunk of species N (pre-order
+   index 4) leaves its own box and overlaps the trunk of species M2 (index 3), which lies
+   inside its box. *)
+Theorem C14_trunk_overlap_refuted :
+  nonneg_params default_params /\ Forall size_ok witness_sizes /\
+  layout Vertical default_params witness_S witness_r witness_sizes = Some witness_layout /\
+  exists a b, nth_error (flatten witness_layout) 3 = Some a /\ nth_error (flatten witness_layout) 4 = Some b /\
+    roverlap (l_trunk a) (l_trunk b) /\ ~ rdisjoint (l_trunk a) (l_trunk b) /\
+    rinside (l_trunk a) (l_rect a) /\ ~ rinside (l_trunk b) (l_rect b).
+Proof. exact trunk_overlap_refuted. Qed.
+Print Assumptions C14_trunk_overlap_refuted.
+
+(* The layout is a function of its inputs (the model has no hidden state; that the
+   implementation's second run equals its first is checked by the harness). *)
+Theorem C14_layout_function : forall o P S r sizes o' P' S' r' sizes',
+  o = o' -> P = P' -> S = S' -> r = r' -> sizes = sizes' ->
+  layout o P S r sizes = layout o' P' S' r' sizes'.
+Proof. exact layout_function. Qed.
+Print Assumptions C14_layout_function.
